@@ -1862,7 +1862,7 @@ def configurable(name_or_fn=None,
   def perform_decoration(fn_or_cls):
     return _make_configurable(fn_or_cls, name, module, allowlist, denylist)
 
-  if decoration_target:
+  if decoration_target is not None:
     return perform_decoration(decoration_target)
   return perform_decoration
 
@@ -1999,7 +1999,7 @@ def register(name_or_fn=None,
         avoid_class_mutation=True)
     return fn_or_cls
 
-  if decoration_target:
+  if decoration_target is not None:
     return perform_decoration(decoration_target)
   return perform_decoration
 
